@@ -8,6 +8,7 @@ import vlib
 from vlib import Infra, log
 
 RACE_RE = re.compile(r"WARNING: DATA RACE")
+FATAL_RE = re.compile(r"fatal error: concurrent map (read and map write|writes|iteration and map write)")
 
 
 def _registry_run(ctx, vdr, d, inp, tag):
@@ -17,6 +18,9 @@ def _registry_run(ctx, vdr, d, inp, tag):
     p = vlib.run([vdr, "-mode", "registry", "-in", inp, "-out", tp], env=env, timeout=1800, check=False)
     out = p.stdout or ""
     if p.returncode != 0:
+        if FATAL_RE.search(out) and ("/repo/" in out or "go.pennock.tech/tabular" in out):
+            # the Go runtime itself aborted the process: unsynchronised map access inside the library
+            return [], 0, {}, 1 + len(RACE_RE.findall(out)), out
         raise Infra("registry driver failed (%d): %s" % (p.returncode, out[-3000:]))
     m = re.search(r'vdrive: (\{.*\})', out)
     st = json.loads(m.group(1)) if m else {}
@@ -96,7 +100,7 @@ def registry_phase(ctx):
         os.makedirs(rdir, exist_ok=True)
         rp = os.path.join(rdir, "C17-race.txt")
         open(rp, "w").write(racetxt[-20000:])
-        log("MISMATCH the race detector reported %d data race(s) during the registry runs" % races)
+        log("MISMATCH the race detector / Go runtime reported %d data race(s) (or a fatal concurrent map access) during the registry runs" % races)
         viol.append(rp)
     if recs:
         # reproduce: deterministic parts (forced, probe) must show again; stress may need retries
@@ -174,6 +178,14 @@ def conc_phase(ctx):
                   "-subst", str(seed)], env=env, timeout=3000, check=False)
     out = p.stdout or ""
     if p.returncode != 0:
+        if FATAL_RE.search(out) and ("/repo/" in out or "go.pennock.tech/tabular" in out):
+            rdir = os.path.join(wd, "replay")
+            os.makedirs(rdir, exist_ok=True)
+            rp = os.path.join(rdir, "%s-fatal.txt" % ctx["prop"])
+            open(rp, "w").write(out[-40000:])
+            log("MISMATCH the Go runtime aborted the concurrent run: unsynchronised map access inside the library")
+            shutil.rmtree(d, ignore_errors=True)
+            return [rp]
         raise Infra("concurrent driver failed (%d): %s" % (p.returncode, out[-3000:]))
     m = re.search(r'vdrive: (\{.*\})', out)
     st = json.loads(m.group(1)) if m else {}
